@@ -26,10 +26,18 @@ func (r *runner) staleOldRoot() {
 			}
 			seq, old := chain.NewNode(nil, newState), chain.NewNode(nil, newState)
 			fol := newFollower(newState)
+			r.or.AskUntil("reset", "end")
+			modelOK := true
 			for i, sp := range specs {
 				b, err := seq.Finalise(sp)
 				if err != nil {
 					panic(err)
+				}
+				// the model follows the same chain: accept_ev must accept what juno's sequencer produced
+				if modelOK && !modelAccept(r.or, network, i, i+1, &Built{Block: b.Block, Update: b.Update, Classes: b.Classes}) {
+					modelOK = false
+					r.c.Violation("accept-verdict:reject-vs-accept:valid", fmt.Sprintf("stale-old-root setup block %d: the extracted accept rejects a block finalised by juno: %s", i,
+						modelExplain(r.or, network, i, &Built{Block: b.Block, Update: b.Update, Classes: b.Classes})), replayCase{Kind: "stale", NewState: newState}, true)
 				}
 				if err := fol.node.Store(b); err != nil {
 					panic(fmt.Sprintf("stale-old-root setup: follower store %d: %v", i, err))
@@ -65,9 +73,15 @@ func (r *runner) staleOldRoot() {
 				continue
 			}
 			pre := rawDigest(fol.mem)
+			mbx := &Built{Block: bx.Block, Update: bx.Update, Classes: bx.Classes}
+			mv := modelOK && modelAccept(r.or, network, len(specs), -1, mbx)
 			err = fol.node.Store(&chain.Built{Block: bx.Block, Update: bx.Update, Classes: bx.Classes})
 			r.c.Count(fmt.Sprintf("stale/%v/%d", newState, k), true)
 			be := backendName(newState)
+			if modelOK {
+				r.compareVerdict(mv, err == nil, "stale-old-root", fmt.Sprintf("stale-old-root probe k=%d [%s]", k, be), len(specs), mbx, err,
+					replayCase{Kind: "stale", NewState: newState, Pos: k})
+			}
 			if bx.Block.GlobalStateRoot.Equal(honest.Block.GlobalStateRoot) {
 				panic("stale-old-root probe is vacuous: stale and honest roots coincide")
 			}
